@@ -42,6 +42,7 @@ def mk_channel(inp, name, cfg):
     kw = dict(clock_period=clock, min_duration=inp.int(name + ".min_duration", 1, None))
     if cfg.get("maxd"):
         kw["max_duration"] = inp.int(name + ".max_duration", 1, None)
+        inp.assume(kw["max_duration"] >= kw["min_duration"])
     else:
         kw["max_duration"] = None
     tr = inp.int(name + ".tr", 1, None) if cfg.get("mod", True) else None
@@ -677,6 +678,17 @@ def step_shapes(tier):
                             own=dict(clock=clock, local=local, slots=slots, mod=True, pj=pj,
                                      targets_a=["q0"], targets_b=["q1"]),
                             op=op, maxseq=True, nbarriers=1))
+    if not quick:
+        # deeper variants: symbolic channel max_duration (automatic delays can then be refused), two phase barriers,
+        # channels without modulation
+        for clock in (1, 4):
+            for local in (False, True):
+                for slots in own_slot_lists(2, local):
+                    for op in (ops_local if local else ops_global):
+                        shapes.append(dict(own=dict(clock=clock, local=local, slots=slots, mod=True, pj="custom", maxd=True,
+                                                    targets_a=["q0"], targets_b=["q1"]), op=op, maxseq=True, nbarriers=2))
+                        shapes.append(dict(own=dict(clock=clock, local=local, slots=slots, mod=False, pj="derived",
+                                                    targets_a=["q0"], targets_b=["q1"]), op=op, maxseq=False, nbarriers=1))
     return shapes
 
 
@@ -704,6 +716,19 @@ def two_channel_shapes(tier):
                                     other=dict(clock=oclock, local=olocal, slots=ol, mod=True, pj="derived",
                                                targets_a=ota, targets_b=(["q2"] if ota != ["q0", "q1"] else ["q2"])),
                                     op=["add_pulse", proto, ph], maxseq=False, nbarriers=1))
+    if not quick:
+        # three channels: the new pulse must respect both other channels
+        for clock in (1, 4):
+            for ol, tl in ((["pulseA"], ["pulseB", "delay"]), (["pulseA", "delay"], ["pulseA"]),
+                           (["pulseA", "delay", "target", "pulseA"], ["delay", "pulseA"])):
+                for ota, tta in ((["q0"], ["q1"]), (["q0"], ["q0"]), (["q1"], ["q0", "q1"])):
+                    for proto in ("min-delay", "wait-for-all", "no-delay"):
+                        for ph in ("A", "B"):
+                            shapes.append(dict(
+                                own=dict(clock=clock, local=False, slots=["pulseA"], mod=True, pj="derived", targets_a=["q0"], targets_b=["q1"]),
+                                other=dict(clock=1, local=("target" in ol), slots=ol, mod=True, pj="derived", targets_a=ota, targets_b=["q2"]),
+                                third=dict(clock=4, local=False, slots=tl, mod=True, pj="derived", targets_a=tta, targets_b=["q2"]),
+                                op=["add_pulse", proto, ph], maxseq=False, nbarriers=1))
     return shapes
 
 
